@@ -110,7 +110,10 @@ def run(ctx):
         "traces_validated_against_impl": ev,
         "abstract_cases": len(cases),
         "wire_limits": limits,
-        "exhaustive": True,
+        "exhaustive": not q,
+        "exhaustive_scope": "TLC: all reachable states of the configs named in tlc_runs; Go: every payload length 1..MaxPayload of "
+                            "every abstract case in the thorough tier (quick samples the middle lengths); padding draws, keys and "
+                            "stream ids / sequence numbers are sampled in both tiers",
         "checker_cmd": "tlc FrameCodec.tla (FrameCodec_mc.cfg) / FrameCodecGen.tla + go test -run TestVerifC04Replay",
         "harness_stats": stats,
     }
